@@ -23,13 +23,13 @@ import common as C
 import isdlit as L
 import isdcore, gen_tables
 
-HEADER = ("From TT Require Import Model.Doc Gen.StyleTables Model.Isd Model.CueWriter Model.CueCases.\n"
+HEADER = ("From TT Require Import Model.Doc Gen.StyleTables Model.Isd Model.SigTimes Model.CueWriter Model.CueCases Proofs.C06.Text.\n"
           "Open Scope Z_scope.\n")
 VCFG = [(lp, ta, ci) for lp in (False, True) for ta in (False, True) for ci in (False, True)]
 CONFIG_NAMES = ["srt text_formatting=True", "srt text_formatting=False"] + \
                [f"vtt line_position={a} text_align={b} cue_id={c}" for a, b, c in VCFG]
 TRIGGERS = ["ruby", "nested-div", "tags-only", "collapsed", "unbounded", "arrow", "blank-line", "line-range", "snapshot-error",
-            "srt-markup"]
+            "srt-markup", "reset-style", "align-lost"]
 NTRIG = len(TRIGGERS)
 
 
@@ -119,11 +119,11 @@ class CueGen:
     """Random well-formed documents for the writers: most content visible, several simultaneously active regions with several
     div/p each, nested divs, ruby, both white-space modes, markup-significant text, sub-millisecond and unbounded intervals, the
     style properties the writers read (on every level), region geometry for line positions, animation, display."""
-    def __init__(self, rng, styled=0.08, markup=0.25, ruby_p=0.08, style_density=0.02, anim_density=0.015, display_p=0.03,
-                 region_ref_p=0.45, timing_p=0.22, subms_p=0.03):
+    def __init__(self, rng, styled=0.08, markup=0.25, ruby_p=0.08, style_density=0.02, anim_density=0.006, display_p=0.03,
+                 region_ref_p=0.45, timing_p=0.15, subms_p=0.04, nested_p=0.25):
         self.rng = rng; self.sd = style_density; self.ad = anim_density; self.dp = display_p
         self.ruby_p = ruby_p; self.rrp = region_ref_p; self.tp = timing_p; self.n = 0
-        self.styled = styled; self.markup = markup; self.subms_p = subms_p; self.in_ruby = 0; self.ruby_quiet = True
+        self.styled = styled; self.markup = markup; self.subms_p = subms_p; self.in_ruby = 0; self.ruby_quiet = True; self.nested_p = nested_p
         import ttconv.style_properties as s
         self.ALL = sorted(s.StyleProperties.ALL, key=lambda p: p.__name__)
 
@@ -195,6 +195,7 @@ class CueGen:
         import ttconv.model as m
         rng = self.rng; self.n += 1; k = self.n
         t = rng.choice(TEXTS if rng.random() < self.markup else TEXTS[:9])
+        if "-->" in t and rng.random() < 0.75: t = "T%d"          # keep "-->" (which spoils every configuration of a document) rare
         parent.push_child(m.Text(self.d, t % k if "%d" in t else t))
 
     def span(self, depth, allow_nested=True):
@@ -253,7 +254,7 @@ class CueGen:
         import ttconv.model as m
         rng = self.rng; e = m.Div(self.d); self.common(e, "d")
         for _ in range(rng.randint(0, 3)):
-            if depth < 2 and rng.random() < 0.25: e.push_child(self.div(depth + 1))
+            if depth < 2 and rng.random() < self.nested_p: e.push_child(self.div(depth + 1))
             else: e.push_child(self.p())
         return e
 
@@ -285,14 +286,39 @@ class CueGen:
         return d
 
 
+def refresh_colours(d):
+    """replace every colour value by a NEW equal object (as a reader that parses #rrggbb does): Python object identity then no
+    longer coincides with equality, which the model assumes; such documents are judged by S only"""
+    import ttconv.style_properties as s, ttconv.model as m
+    SP = s.StyleProperties
+    def walk(e):
+        for p in (SP.Color, SP.BackgroundColor):
+            if e.is_style_applicable(p) if hasattr(e, "is_style_applicable") else True:
+                v = e.get_style(p)
+                if isinstance(v, s.ColorType): e.set_style(p, s.ColorType(tuple(v.components)))
+        for c in e: walk(c)
+    for r in d.iter_regions(): walk(r)
+    if d.get_body() is not None: walk(d.get_body())
+
+
+def is_fresh(seed, prop):
+    return prop == "C07" and seed % 12 == 0
+
+
 def make_doc(seed, prop):
+    d = make_doc0(seed, prop)
+    if is_fresh(seed, prop): refresh_colours(d)
+    return d
+
+
+def make_doc0(seed, prop):
     rng = random.Random(seed)
     prof = rng.randrange(4)
     if prop == "C07":
         g = CueGen(rng, styled=(0.10, 0.18, 0.25, 0.12)[prof], markup=(0.45, 0.3, 0.5, 0.6)[prof], ruby_p=0.03,
-                   style_density=(0.0, 0.02, 0.04, 0.0)[prof], subms_p=0.02)
+                   style_density=(0.0, 0.02, 0.04, 0.0)[prof], subms_p=0.03, nested_p=0.1, timing_p=0.12, anim_density=0.004)
     else:
-        g = CueGen(rng, styled=(0.03, 0.06, 0.10, 0.0)[prof], markup=(0.15, 0.25, 0.1, 0.3)[prof], ruby_p=(0.10, 0.05, 0.12, 0.0)[prof],
+        g = CueGen(rng, styled=(0.03, 0.06, 0.10, 0.0)[prof], markup=(0.15, 0.25, 0.1, 0.3)[prof], ruby_p=(0.05, 0.02, 0.06, 0.0)[prof],
                    style_density=(0.0, 0.02, 0.05, 0.0)[prof])
     return g.doc(nreg=rng.choice([0, 1, 1, 2, 2, 3, 3]))
 
@@ -412,11 +438,12 @@ def work(args):
     return k, defs, outs, [p is not None for p in parsed], nreg
 
 
-def slots_for(prop, k):
+def slots_for(prop, k, fresh=False):
+    w = "cases_skip 10" if fresh else f"cases_writers d{k} s{k} v{k}"
     if prop == "C06":
-        return [f"cases_writers d{k} s{k} v{k}", f"cases_cues d{k} s{k} v{k} c{k}", f"cases_triggers d{k} s{k} v{k}", f"cases_ties d{k}"], [10, 10, 10 * NTRIG, 1]
-    return [f"cases_writers d{k} s{k} v{k}", f"cases_wf s{k} v{k}", f"cases_runs d{k} s{k} v{k}", f"cases_triggers d{k} s{k} v{k}",
-            f"cases_ties d{k}"], [10, 10, 10, 10 * NTRIG, 1]
+        return [w, f"cases_cues d{k} s{k} v{k} c{k}", f"[match isd_sequence d{k} with Ok s => seq_shape s | Err _ => true end]", f"cases_triggers d{k} s{k} v{k}", f"cases_ties d{k}"], [10, 10, 1, 10 * NTRIG, 1]
+    return [w, f"cases_wf s{k} v{k}", f"cases_runs d{k} s{k} v{k}", f"cases_settings d{k} v{k}", f"cases_triggers d{k} s{k} v{k}",
+            f"cases_ties d{k}"], [10, 10, 10, 8, 10 * NTRIG, 1]
 
 
 def load_proposed(run):
@@ -450,12 +477,11 @@ def check(prop, targets, extra_rule):
     if errors:
         run.violation("table translator failed closed: " + "; ".join(errors), dict(kind="translator", errors=errors), False)
         return run.finish()
-    DEV = os.environ.get("VERIF_DEV") == "1"
-    ok, log = run.build(targets if not DEV else ["Model/CueCases.vo"], clean=(run.tier == "thorough"))
-    proofs_ok = ok and (DEV or run.theorems())
+    ok, log = run.build(targets, clean=(run.tier == "thorough"))
+    proofs_ok = ok and run.theorems()
     if not ok: run.proof_log = log[-2500:]
     # recorded-findings file: compiles iff the refutation witnesses still refute
-    frc, fout = C.coqc(f"{C.COQ}/Findings/{prop}.v", 900) if not DEV else (0, "")
+    frc, fout = C.coqc(f"{C.COQ}/Findings/{prop}.v", 900)
     run.cov["obligations"] += 1
     if frc == 0: run.cov["discharged"] += 1
     else:
@@ -463,14 +489,15 @@ def check(prop, targets, extra_rule):
                       dict(kind="findings-file", log=fout[-1500:]), False)
     run.witnesses()
 
-    ndocs = int(os.environ.get("VERIF_NDOCS", 0)) or (300 if run.tier == "quick" else 5000)
+    ndocs = 300 if run.tier == "quick" else 5000
     seeds = [(k, run.rng.getrandbits(60), prop) for k in range(ndocs)]
     with ProcessPoolExecutor(C.NCPU) as ex:
         results = list(ex.map(work, seeds, chunksize=8))
     run.log(f"implementation run on {ndocs} documents")
     blocks, info = [], {}
+    seedof = {k: s for k, s, _ in seeds}
     for k, defs, outs, parsed_ok, nreg in results:
-        sl, cnt = slots_for(prop, k)
+        sl, cnt = slots_for(prop, k, is_fresh(seedof[k], prop))
         blocks.append((k, defs, sl, cnt)); info[k] = (outs, parsed_ok, nreg)
     files = isdcore.write_shards(f"Cases_{prop}_", HEADER, blocks, max_bytes=150_000)
     run.log(f"{len(files)} case files written ({sum(os.path.getsize(p) for p, _ in files) // 1000} kB)")
@@ -484,7 +511,6 @@ def check(prop, targets, extra_rule):
         fired.setdefault((k, i // NTRIG), set()).add(TRIGGERS[i % NTRIG])
     ties = {k for k, _ in bad.get(tie_slot, [])}
     m_bad = bad.get(0, [])
-    seedof = {k: s for k, s, _ in seeds}
 
     def replay(case):
         k, i = case
@@ -505,8 +531,9 @@ def check(prop, targets, extra_rule):
                 stats["raised"][str(r[1])] = stats["raised"].get(str(r[1]), 0) + 1
 
     known_hits, unexplained, excluded = {}, [], {"snapshot-error": 0, "srt-markup": 0, "c06-text-loss": 0}
-    def judge(slot, explain, skip=()):
-        for case in bad.get(slot, []):
+    def judge(slot, explain, skip=(), offset=0):
+        for k0, i0 in bad.get(slot, []):
+            case = (k0, i0 + offset)
             f = fired.get(case, set())
             if "snapshot-error" in f: excluded["snapshot-error"] += 1; continue
             if any(t in f for t in skip): excluded["c06-text-loss"] += 1; continue
@@ -515,11 +542,14 @@ def check(prop, targets, extra_rule):
                 for fid in dict.fromkeys(hit): known_hits.setdefault(fid, []).append(case)
             elif "srt-markup" in f and case[1] < 2: excluded["srt-markup"] += 1
             else: unexplained.append((slot, case))
+    shape_bad = []
     if prop == "C06":
         judge(1, C06_EXPLAIN)
+        shape_bad = bad.get(2, [])       # the shape hypothesis of the text theorems, evaluated on every generated sequence
     else:
         judge(1, C07_WF_EXPLAIN)
         judge(2, [("reset-style", "nested-span-resets-style")], skip=C07_RUNS_SKIP)
+        judge(3, [("align-lost", "align-lost-when-paragraphs-merged")], skip=C07_RUNS_SKIP, offset=2)
     run.log(f"{ndocs} documents x 10 configurations: outputs {stats['outputs_ok']} ({stats['outputs_nonempty']} with cues, {stats['cues']} cues), "
             f"raised {stats['raised']}; model/code mismatches {len(m_bad)}, near-tie line positions left out in {len(ties)} documents, "
             f"S failures under listed findings { {k: len(v) for k, v in known_hits.items()} }, excluded {excluded}, "
@@ -533,6 +563,9 @@ def check(prop, targets, extra_rule):
         run.violation(f"{prop}: the implementation's output contradicts Spec/CueSpec.v on an input no listed finding covers "
                       f"(slot {slot}, document seed {seedof[case[0]]}, {CONFIG_NAMES[case[1]]}; {len(unexplained)} such outputs)",
                       dict(kind="S-on-code", spec="coq/Spec/CueSpec.v", slot=slot, first=replay(case), count=len(unexplained)))
+    if shape_bad:
+        run.violation(f"harness/c06.py generated a document whose snapshots do not have the shape Properties/C06.v assumes (seq_shape), "
+                      f"document seed {seedof[shape_bad[0][0]]}", dict(kind="hypothesis", first=replay((shape_bad[0][0], 0))), found_input=False)
     if (m_bad or broken or not proofs_ok) and not unexplained:
         what = []
         if not proofs_ok: what.append(f"theorems of coq/Properties/{prop}.v no longer check: " + getattr(run, "proof_log", "")[-500:])
@@ -555,6 +588,10 @@ def check(prop, targets, extra_rule):
                    samples=[dict(document=L.doc_lit(d0)[:1500], outputs=[(r[1][:300] if r[0] == 'ok' else r[2]) for r in info[0][0][:3]])],
                    documents=ndocs, regions_per_document=regs, outputs=stats, triggers_fired_per_output=trig_hist,
                    model_code_mismatches=len(m_bad), near_tie_documents=len(ties), excluded=excluded,
+                   documents_with_fresh_colour_objects=sum(1 for k in info if is_fresh(seedof[k], prop)),
+                   s_accepted=({"cues (C06)": ndocs * 10 - len(bad.get(1, []))} if prop == "C06" else
+                               {"grammar": ndocs * 10 - len(bad.get(1, [])), "runs": ndocs * 10 - len(bad.get(2, [])),
+                                "cue settings": ndocs * 8 - len(bad.get(3, []))}),
                    s_failures_under_findings={k: len(v) for k, v in known_hits.items()}, s_failures_unexplained=len(unexplained))
     run.assumptions += ["documents are well formed (content model of model.py; C15); region identity is modelled by id",
                         "object identity of colour values is read as equality (colours are shared objects, as with NamedColors)",
@@ -567,7 +604,7 @@ def check(prop, targets, extra_rule):
 
 
 def main():
-    return check("C06", ["Proofs/C06/Text.vo", "Proofs/C06/Times.vo", "Model/CueCases.vo"],
+    return check("C06", ["Proofs/C06/Text.vo", "Proofs/C06/SpecLink.vo", "Proofs/C06/Shape.vo", "Proofs/C06/Exists.vo", "Proofs/C06/Breaks.vo", "Model/CueCases.vo"],
                  "Each output is compared with M as a string; its cues (strict parser here AND Spec/CueSpec.v parser, which must agree) "
                  "are compared with cue_spec evaluated in Coq.")
 
